@@ -15,65 +15,36 @@ use crate::types::{Command, CommandLine, CommandResult, Redirection};
 ///      ("1", ">", "foo.txt"),
 ///  ])
 fn _get_std_fds(redirects: &[Redirection]) -> (Option<RawFd>, Option<RawFd>) {
-    if redirects.is_empty() {
-        return (None, None);
-    }
+    // the redirections are applied from left to right; `None` stands for
+    // the shell's own descriptor 1 (resp. 2)
+    let mut fd_out: Option<RawFd> = None;
+    let mut fd_err: Option<RawFd> = None;
 
-    let mut fd_out = None;
-    let mut fd_err = None;
-
-    for i in 0..redirects.len() {
-        let item = &redirects[i];
-        if item.0 == "1" {
-            // 1>&2
-            let mut _fd_candidate = None;
-
-            if item.2 == "&2" {
-                let (_fd_out, _fd_err) = _get_std_fds(&redirects[i+1..]);
-                // only the stderr side of the look-ahead is used
-                if let Some(fd) = _fd_out {
-                    unsafe { libc::close(fd); }
-                }
-                if let Some(fd) = _fd_err {
-                    _fd_candidate = Some(fd);
-                } else {
-                    _fd_candidate = unsafe { Some(libc::dup(2)) };
-                }
-            } else {  // 1> foo.log
-                let append = item.1 == ">>";
-                if let Ok(fd) = tools::create_raw_fd_from_file(&item.2, append) {
-                    _fd_candidate = Some(fd);
-                }
+    for item in redirects {
+        let mut _fd_candidate = None;
+        if item.2 == "&2" {
+            // N>&2: a copy of what descriptor 2 refers to at this point
+            _fd_candidate = unsafe { Some(libc::dup(fd_err.unwrap_or(2))) };
+        } else if item.2 == "&1" {
+            _fd_candidate = unsafe { Some(libc::dup(fd_out.unwrap_or(1))) };
+        } else {  // N> foo.log
+            let append = item.1 == ">>";
+            if let Ok(fd) = tools::create_raw_fd_from_file(&item.2, append) {
+                _fd_candidate = Some(fd);
             }
+        }
 
-            // for command like this: `alias > a.txt > b.txt > c.txt`,
-            // we need to return the last one, but close the previous two.
+        // for command like this: `alias > a.txt > b.txt > c.txt`,
+        // we need to return the last one, but close the previous two.
+        if item.0 == "1" {
             if let Some(fd) = fd_out {
                 unsafe { libc::close(fd); }
             }
-
             fd_out = _fd_candidate;
-        }
-
-        if item.0 == "2" {
-            // 2>&1
-            let mut _fd_candidate = None;
-
-            if item.2 == "&1" {
-                if let Some(fd) = fd_out {
-                    _fd_candidate = unsafe { Some(libc::dup(fd)) };
-                }
-            } else {  // 2>foo.log
-                let append = item.1 == ">>";
-                if let Ok(fd) = tools::create_raw_fd_from_file(&item.2, append) {
-                    _fd_candidate = Some(fd);
-                }
-            }
-
+        } else {
             if let Some(fd) = fd_err {
                 unsafe { libc::close(fd); }
             }
-
             fd_err = _fd_candidate;
         }
     }
